@@ -729,6 +729,9 @@ pub fn corpus() -> Vec<Scenario> {
         // a tower caught lying on the notification path (nothing pending, no retrier) is registered again with a receipt
         // that extends the subscription: it stays flagged and is sent nothing more
         sc("misbehaving-tower-registered-again", vec![Register(0), Register(1), Add(0, BadSig), Notify(0), Add(0, Accept), Register(0), Notify(1), Restart, Register(0), Notify(2)]),
+        // a tower that holds only refusals (nothing pending) across a restart: the refusals are still known afterwards, a
+        // repeated revocation is not sent again, a new one is handled as usual
+        sc("restart-with-only-invalid-then-repeat", vec![Register(0), Register(1), Add(0, Reject), Notify(0), Notify(1), Restart, Notify(0), Add(0, Accept), Notify(1), Notify(2), Restart]),
         sc("kill-with-pending", vec![Register(0), Register(1), Down(0, true), Notify(0), Notify(1), Restart, Down(0, false), Restart, Notify(2)]),
         // a receipt the tower signed for another user (its reply names that user): not a subscription of this client
         sc("register-reply-for-another-user", vec![Register(0), Register(1), PEv::Reg(0, RegMode::OtherUser), Register(0), Notify(0), Add(0, SubErrUntilReg), Notify(1), Retry(0), Restart, PEv::Reg(0, RegMode::Accept), Register(0), Notify(2)]),
